@@ -31,6 +31,7 @@ import (
 
 	"github.com/kstenerud/go-concise-encoding/configuration"
 	"github.com/kstenerud/go-concise-encoding/internal/common"
+	"github.com/kstenerud/go-concise-encoding/verifhook"
 )
 
 // A builder session holds a cache of known mappings of types to builders.
@@ -108,14 +109,18 @@ func (_this *Session) GetBuilderGeneratorForType(dstType reflect.Type) BuilderGe
 
 	wg.Add(1)
 	storedBuilderGenerator, loaded := _this.builderGenerators.LoadOrStore(dstType, BuilderGenerator(func(ctx *Context) Builder {
+		verifhook.Point("builder.placeholder.wait")
 		wg.Wait()
 		return builderGenerator(ctx)
 	}))
 	if loaded {
+		verifhook.Point("builder.cache.lost-race")
 		return storedBuilderGenerator.(BuilderGenerator)
 	}
 
+	verifhook.Point("builder.cache.miss")
 	builderGenerator = _this.defaultBuilderGeneratorForType(dstType)
+	verifhook.Point("builder.cache.generated")
 	wg.Done()
 	_this.builderGenerators.Store(dstType, builderGenerator)
 	return builderGenerator
